@@ -40,6 +40,43 @@ add("C17", "chain", "model_checking",
     "equal the reference unspent set per script and every stored script/value must equal the creating transaction's.",
     CHAIN_NOTE, "DESIGN.md sections 4 (E1) and 5 C17")
 
+INSC_TECH = "stateless deviation-bounded exhaustive exploration of block histories on the real Index, sat-based reference model + whole-index audit on every reached state"
+INSC_SPACE = ("Every 2-block history with <=K deviations over the inscription-suite alphabet (57 templates: reveals x envelope kinds x pointers x "
+              "parent references, reinscriptions, transfers; 6 coinbase shapes) at two chain positions (cursed era, straddling the jubilee) runs on the "
+              "real Index with update() after every block, in lock-step with a reference model that binds each inscription to a sat and lets the BIP sat model move it. ")
+add("C03", "chain", "model_checking", INSC_TECH,
+    INSC_SPACE + "Oracle: every inscription's reported satpoint equals the reference location of its sat (including the lost-sats pseudo-output), "
+    "Index::find of its sat agrees, burned / lost / unbound outcomes carry the stated charms and locations.", CHAIN_NOTE, "DESIGN.md section 5 C03")
+add("C04", "chain", "model_checking", INSC_TECH,
+    INSC_SPACE + "Oracle: on every state each sequence number has exactly one holder, every output lists exactly the inscriptions whose satpoint is in it "
+    "(offsets below its value), and the count equals the number of envelopes ord's parser finds in non-coinbase transactions.", CHAIN_NOTE, "DESIGN.md section 5 C04")
+add("C05", "chain", "model_checking", INSC_TECH,
+    INSC_SPACE + "Oracle: sequence numbers dense, blessed/cursed numbers dense in sequence order, ids = (reveal txid, envelope ordinal) recomputed from "
+    "the block, id/number/sequence/block lookups mutually inverse, no negative number at or after the jubilee.", CHAIN_NOTE, "DESIGN.md section 5 C05")
+add("C06", "chain", "model_checking", INSC_TECH,
+    INSC_SPACE + "Oracle: among the inscriptions bound to one sat all but the first (by sequence number) carry the reinscription charm; a clean first "
+    "inscription is neither cursed, vindicated nor a reinscription.", CHAIN_NOTE, "DESIGN.md section 5 C06")
+add("C07", "chain", "model_checking", INSC_TECH,
+    INSC_SPACE + "Oracle: recorded parents are older, not repeated, named by the envelope and among the inscriptions spent or revealed by the reveal "
+    "transaction; the children table is the exact inverse; a visible collection's latest child is its newest child.", CHAIN_NOTE, "DESIGN.md section 5 C07")
+RUNE_TECH = "stateless deviation-bounded exhaustive exploration of block histories on the real Index plus batched single-transaction products, reference model written from the runes specification"
+RUNE_SPACE = ("Every history with <=K deviations over the rune-suite alphabet (55 templates: etchings x name kinds x commitment kinds x terms, cenotaphs, "
+              "mints, edict / pointer transfers; 4 coinbase shapes) after a prefix preparing commit outputs with 5 and 6 confirmations runs on the real Index "
+              "in lock-step with a reference model written from docs/src/runes/specification.md. ")
+add("C08", "chain", "model_checking", RUNE_TECH,
+    RUNE_SPACE + "Oracle on every state: per rune balances + burned = premine + mints x amount; no zero balance, unknown rune, OP_RETURN or spent output in the balance table. "
+    "Also evaluated on the batched allocation product and mint matrix.", CHAIN_NOTE, "DESIGN.md section 5 C08")
+add("C09", "chain", "model_checking", RUNE_TECH,
+    RUNE_SPACE + "Plus a batched product block of thousands of independent transactions = input balances x output layouts x edict lists x pointer. "
+    "Oracle: the balance table and every burned total equal the reference allocation.", CHAIN_NOTE, "DESIGN.md section 5 C09")
+add("C10", "chain", "model_checking", RUNE_TECH,
+    RUNE_SPACE + "Plus a batched mint matrix: every subset of the six terms fields with values on window edges x a mint attempt before/after the etching "
+    "in its block and at each following height (cenotaph mints, two attempts in one block). Oracle: mint counts equal the reference, never above the cap.",
+    CHAIN_NOTE, "DESIGN.md section 5 C10")
+add("C11", "chain", "model_checking", RUNE_TECH,
+    RUNE_SPACE + "Oracle: the set of rune entries, their ids, names, numbers and every etched field equal the reference; name/id/etching-txid lookups are "
+    "inverse; rune and reserved-rune statistics match.", CHAIN_NOTE, "DESIGN.md section 5 C11")
+
 NOT_YET = "check not built yet in this round (see DESIGN.md build order); not claimed"
 
 def main():
